@@ -83,12 +83,15 @@ fn check_inv(port: &RPort<'_>) {
 // @props C14 C03 C17
 // @tier quick
 // @variant lists2
-// @timeout 1200
+// @timeout 1500
+// @stubbing yes
+// @replay playback
 // @functions Port::handle_peer_delay_response, Port::handle_time_measurement, Port::extract_measurement, Port::set_forced_port_state, Duration / f64 (2.0)
 // @bounds one step from an arbitrary port state (all five states, Slave with arbitrary slots) and arbitrary peer-delay record (Empty / PostMeasurement / Measuring with any subset of responder, t1..t4 stored; Inv: not complete), any ids; response header fully symbolic (sequence id, correction, source, twoStep), request-receipt timestamp seconds < 2^48 and any nanoseconds, requesting identity symbolic
 // @assume receive time in [2^47 ns, 2^63 ns) (no underflow of recv - correction; corner is C03's known-finding twin)
 #[kani::proof]
-#[kani::unwind(40)]
+#[kani::unwind(9)]
+#[kani::stub(core::mem::swap, super::common::swap_stub)]
 fn c14_pdelay_resp() {
     let state = any_state(0);
     let (mut port, pre, cfg, fcfg) = setup(&state);
@@ -158,12 +161,15 @@ fn c14_pdelay_resp() {
 // @props C14 C03 C17
 // @tier quick
 // @variant lists2
-// @timeout 1200
+// @timeout 1500
+// @stubbing yes
+// @replay playback
 // @functions Port::handle_peer_delay_response_follow_up, Port::handle_time_measurement, Port::extract_measurement, Port::set_forced_port_state
 // @bounds as c14_pdelay_resp; follow-up header, response origin timestamp and requesting identity fully symbolic
 // @assume response origin timestamp seconds >= 2^18 (no underflow of t3 + negative correction; corner is C03's known-finding twin)
 #[kani::proof]
-#[kani::unwind(40)]
+#[kani::unwind(9)]
+#[kani::stub(core::mem::swap, super::common::swap_stub)]
 fn c14_pdelay_resp_follow_up() {
     let state = any_state(0);
     let (mut port, pre, cfg, fcfg) = setup(&state);
@@ -226,11 +232,14 @@ fn c14_pdelay_resp_follow_up() {
 // @props C14 C03 C17
 // @tier quick
 // @variant lists2
-// @timeout 1200
+// @timeout 1500
+// @stubbing yes
+// @replay playback
 // @functions Port::handle_send_timestamp, Port::handle_pdelay_timestamp, Port::extract_measurement
 // @bounds as c14_pdelay_resp; transmit timestamp any Time in [0, 2^63 ns), context id any u16
 #[kani::proof]
-#[kani::unwind(40)]
+#[kani::unwind(9)]
+#[kani::stub(core::mem::swap, super::common::swap_stub)]
 fn c14_pdelay_timestamp() {
     let state = any_state(0);
     let (mut port, pre, _cfg, fcfg) = setup(&state);
